@@ -15,60 +15,92 @@ def oracles_():
 
 TRUSTED = [
     "pathmodel: the compiled schema and the parsed data tree are read from libyang itself (impl/t_pathmodel.c dumps "
-    "module, name, node type, LYS_KEYLESS / LYS_CONFIG_W / LYS_KEY / LYS_PRESENCE and canonical value of every node in "
-    "lys_getnext() / sibling order); the model takes these dumps as input, so schema compilation, the data parsers and "
-    "lyd_insert_node() ordering are trusted inputs of the path round trip, not verified by it",
+    "module, name, node type, LYS_KEYLESS / LYS_CONFIG_W / LYS_KEY / LYS_PRESENCE, the built-in type and the canonical "
+    "value of every node in lys_getnext() / sibling order); the model takes these dumps as input, so schema compilation, "
+    "the data parsers, value canonicalisation of PARSED values and lyd_insert_node() ordering are trusted inputs of the "
+    "path round trip, not verified by it",
     "pathmodel: pointer equality of schema nodes is modelled as equality of (module name, node name) among the children "
-    "of one schema parent; hash-table lookups (children_ht) are modelled by the linear search they fall back to",
+    "of one schema parent; hash-table lookups (children_ht, node hashes) are modelled by the linear search they fall "
+    "back to",
+    "pathmodel: integer values go through coq/IntLex.v (model of lyplg_type_store_int / _uint; its own tie to libyang is "
+    "the types slice of C03), boolean / enumeration / string acceptance is transcribed in PathModel.canon",
+    "PathModel.v, PathQuote.v are hand transcriptions of the C functions named in MANIFEST note; the theorems are about "
+    "these models, libyang is tied to them only by the differential runs (T2) on generated inputs",
 ]
 
 MANIFEST = {
-    "text": "Coq theorems (Properties_C15_pathmodel.v) about the executable model PathModel.v of the WHOLE round trip, for "
-            "ALL well-formed trees and every node: lyd_path() prints a path that the tokenizer, ly_path_parse() and "
-            "ly_path_compile() (target single and many) accept, ly_path_eval_partial() returns exactly that node "
-            "(C15_pathmodel_roundtrip_stages / _find_own); lyd_new_path() with that path and value on the empty tree creates "
-            "exactly the spine - the node and its ancestors, list instances with their keys (_new_empty, top-level position "
-            "1); on the tree itself it reports LY_EEXIST for every node, nothing created (_new_exists; default = empty "
-            "non-presence containers: success, nothing created). Hypotheses are boolean predicates (swf, dwf, quotes_ok) that "
-            "every generated tree is checked to satisfy; the both-quotes hypothesis and the top-level-position hypothesis are "
-            "shown necessary by refutation theorems with witnesses. The four theorems are also proved with ANY admissible "
-            "lexical form of the key / leaf-list values in the predicates and of the created node's value (*_variant: "
-            "[k='+07'], [k=' 7 '] find and create the node whose canonical int8 key is 7; var_ok / val_ok state "
-            "admissibility through canon). Tie (T2 pathmodel): extracted model vs libyang on "
-            "generated two-module schemas (augments, equal local names, 1-3 keys, key-less lists, state leaf-lists with "
-            "duplicates, nested lists, choices, RPC input / output, notifications) and trees: lyd_path() of EVERY node byte "
-            "for byte; ly_path_parse() accept / reject, lyd_find_path() result (node, partial match, not found, error) and "
-            "lyd_new_path2() result (created chain and attach point, LY_EEXIST, LY_EINVAL, LY_EVALID) on the printed and on "
-            "mutated paths (dropped / duplicated / reordered key predicates, wrong / missing / redundant prefixes, positions "
-            "0 / out of range / 2^32, predicates on the wrong node kind, numbers for literals, other lexical forms of typed values "
-            "(accepted and rejected ones), white space, trailing garbage, foreign XPath tokens); plus two property-level "
-            "expectations inside the same component: lyd_find_xpath() of every printed path selects exactly the node (Y), and "
-            "after lyd_change_term() of a key / leaf-list value the new printed path still identifies the node (G: path "
-            "search, XPath search, LY_EEXIST). "
-            "Coq theorems (Properties_C15_ytext.v): the predicate literal lyd_path() prints for a key / leaf-list value is read "
-            "back as exactly that value by the path parser and by the XPath literal rule, for every value not containing both quote "
-            "characters (refuted with a witness otherwise). Tie: extracted model vs lyd_path/lyd_find_path/lyd_find_xpath (T2). "
-            "Every node of generated trees: path -> find_path/find_xpath returns exactly the node, new_path rebuilds the spine, "
-            "re-creation reports LY_EEXIST (API oracle, search). PathsOps: the same on data, RPC / action request, reply and "
-            "notification trees over schemas with adversarial identifier shapes and two modules with equal local names, with "
-            "duplicates where they are legal and typed keys in non-canonical spelling; lyd_path() compared with an independent "
-            "rendering of the path; whole tree rebuilt from its paths.",
-    "note": "Modelled C (ytext): lyd_path_list_predicate/leaflist_predicate quoting, literal scanning of lyxp_expr_parse and "
-            "ly_path_compile_predicate. Modelled C (pathmodel): lyd_path(LYD_PATH_STD) with lyd_list_pos(), the tokens of "
+    "text": "Two Coq developments about executable MODELS of the C code, each tied to libyang by differential runs (T2); plus "
+            "API-level oracles on the implementation. "
+            "(1) Properties_C15_pathmodel.v, model PathModel.v of the WHOLE round trip. For ALL schemas S and trees t with "
+            "swf S, dwf S t, quotes_ok t (boolean well-formedness predicates, see note) and EVERY node x at position p: "
+            "C15_pathmodel_roundtrip_stages / C15_pathmodel_find_own - the path lyd_path() prints is accepted by the "
+            "tokenizer, ly_path_parse() and ly_path_compile() (target single and many, same compiled path) and "
+            "ly_path_eval_partial() returns exactly x; C15_pathmodel_new_empty - lyd_new_path() with that path and the value of "
+            "x on the EMPTY tree creates exactly the spine (x and its ancestors, list instances with their keys), under the "
+            "extra hypothesis top_first (a top-level ancestor addressed by position is the first instance); "
+            "C15_pathmodel_new_exists - on t itself it reports LY_EEXIST and creates nothing, for every node (a node with "
+            "LYD_DEFAULT, i.e. an empty non-presence container: success, nothing created). The same four with ANY admissible "
+            "spelling of the key / configuration leaf-list values in the predicates (var_ok: canon type spelling = stored "
+            "canonical value, not both quote characters) and of the created node's own value (val_ok): "
+            "C15_pathmodel_roundtrip_stages_variant, C15_pathmodel_find_variant, C15_pathmodel_new_empty_variant, "
+            "C15_pathmodel_new_exists_variant ([k='+07'], [k=' 7 '] find / create the node whose canonical int8 key is 7); "
+            "C15_pathmodel_printed_is_variant: the printed path is the variant that spells the stored values. Necessity of "
+            "hypotheses: C15_pathmodel_both_quotes_refuted (quotes_ok; known finding path-both-quotes at path level), "
+            "C15_pathmodel_top_position_refuted (top_first: /m1:tk[2] on the empty tree is LY_EINVAL; libyang checks the "
+            "position only of the first node it creates). Example C15_pathmodel_example: a non-trivial two-module tree with "
+            "typed keys meets the hypotheses; the same tree, as libyang parses it, is a corpus case of the T2 component. "
+            "Tie (T2 pathmodel, impl/t_pathmodel.c): extracted model vs libyang on generated two-module schemas (augments, "
+            "equal local names, key-name families, 1-3 keys of type string / int8..uint64 / boolean / enumeration, key-less "
+            "lists, state leaf-lists with duplicates, nested lists, choices, presence containers, anydata, RPC input / output, "
+            "notifications) and JSON trees: lyd_path() of EVERY node byte for byte; swf / dwf / quotes_ok computed by the model "
+            "on every generated case; ly_path_parse() accept / reject, lyd_find_path() result (node, partial match, not found, "
+            "error) and lyd_new_path2() result on the empty tree and on the tree (created chain and attach point, LY_EEXIST, "
+            "LY_EINVAL, LY_EVALID) for the printed path of every node and for mutated paths (dropped / duplicated / reordered "
+            "key predicates, wrong / missing / redundant prefixes also on key names, positions 0 / out of range / 2^32, "
+            "predicates on the wrong node kind, numbers for literals, other lexical forms of typed values - accepted and "
+            "rejected ones -, white space, trailing garbage, foreign XPath tokens). Two expectations in the same component are "
+            "ORACLE level only (not modelled, not proved): Y - lyd_find_xpath() of every printed path of data / notification "
+            "trees selects exactly the node; G - after lyd_change_term() of a string key / configuration leaf-list value the "
+            "newly printed path finds the node (path and XPath search) and re-creation reports LY_EEXIST. "
+            "(2) Properties_C15_ytext.v, model PathQuote.v of predicate quoting. C15_path_literal_roundtrip: for every key name "
+            "that is an identifier and every value without both quote characters, the predicate lyd_path() prints, whatever "
+            "follows it, is read back as exactly (name, value) by the path side (token minus first and last byte) and by the "
+            "XPath literal rule; C15_path_literal_both_quotes_refuted: witness a'b\"c is rejected by both readers (known "
+            "finding path-both-quotes, status known: XPath 1.0 literals have no escape); "
+            "C15_inst_predicate_roundtrip_partial / C15_inst_predicate_backslash_refuted: ly_parse_instance_predicate() (no "
+            "caller in the library) reads the predicates back unless the value ends in a backslash; Example "
+            "C15_path_literal_example. Tie (T2 pathq, impl/t_ytext.c): lyd_path() of a leaf-list and a one-key list instance "
+            "of a fixed module for generated values, and whether lyd_find_path / lyd_find_xpath return the node, vs the model. "
+            "(3) Oracles on the implementation only: pathq_rt (the T2 cases judged against the property), paths (every node of "
+            "generated one-module trees: path -> lyd_find_path / lyd_find_xpath return exactly the node, lyd_new_path in an "
+            "empty tree rebuilds the node and its ancestors, re-creation reports LY_EEXIST), paths-ops (impl/t_paths.c: the "
+            "same by pointer identity on data, RPC / action request, reply and notification trees over adversarial "
+            "identifier shapes, two modules with equal local names, duplicates where legal, typed keys incl. identityref, "
+            "instance-identifier, decimal64, bits, union in non-canonical spelling; path without last predicate selects all "
+            "instances; lyd_path() compared with an independent rendering; whole tree rebuilt from its paths). The former "
+            "finding xpath-noprefix-other-module is fixed (/repo b180fe8) and is a violation if it reappears.",
+    "note": "MODELLED, not verified C: PathQuote.v transcribes lyd_path_list_predicate / lyd_path_leaflist_predicate quoting, the "
+            "Literal rule of lyxp_expr_parse, ly_path_compile_predicate / eval_literal unquoting, the quoted-string scan of "
+            "ly_parse_instance_predicate. PathModel.v transcribes lyd_path(LYD_PATH_STD) with lyd_list_pos(), the tokens of "
             "lyxp_expr_parse() that ly_path_parse() can consume (any other token or tokenizer error = reject), ly_path_parse / "
-            "ly_path_check_predicate (PREFIX_FIRST, PRED_SIMPLE, duplicate-key test as coded), _ly_path_compile / "
+            "ly_path_check_predicate (BEGIN_EITHER, PREFIX_FIRST, PRED_SIMPLE, duplicate-key test as coded), _ly_path_compile / "
             "ly_path_compile_snode / ly_path_compile_predicate, ly_path_eval_partial with lyd_find_sibling_first / "
-            "lyd_compare_single list identity, lyd_new_path_ with lyd_new_path_check_find_lypath and lyd_create_list. "
-            "Typed values (pathmodel): keys, leaf-lists and leaves of type string, int8..uint64 (coq/IntLex.v: white space, sign, "
-            "leading zeros, bounds), boolean, enumeration through PathModel.canon: lyd_path prints the canonical value, "
-            "ly_path_compile_predicate / lyd_new_path store the predicate and the value through the type, evaluation "
-            "compares canonical forms. Restrictions of pathmodel: no other types (identityref, instance-identifier, "
-            "decimal64, bits, union, empty: oracle paths-ops only), no range / length / pattern; absolute paths; no XPath "
-            "variables; bytes above 127 only inside literals (the model of parse_ncname is ASCII); anydata created with the "
-            "empty value only, anyxml not generated; LYD_DEFAULT only as it arises in parsed trees (empty non-presence "
-            "containers); for creation in a non-empty tree only the created chain and its attach point are modelled, not the "
-            "sibling position lyd_insert_node() gives it; lyd_find_xpath() is not part of the model (oracles paths / "
-            "paths-ops check it). 32-bit wrap of lyd_list_pos and atoi() truncation are modelled; the theorems assume fewer "
-            "than 2^31 siblings.",
-    "technique": "Coq proof (quote/unquote round trip) + differential correspondence + API oracle on every node",
+            "lyd_compare_single list identity, lyd_new_path_ (options 0) with lyd_new_path_check_find_lypath and "
+            "lyd_create_list; values through PathModel.canon (string: valid UTF-8; int8..uint64: coq/IntLex.v - white space, "
+            "sign, leading zeros, bounds; boolean; enumeration): lyd_path prints the canonical value, predicates and created "
+            "values are stored through the type, evaluation compares canonical forms. Hypotheses of the theorems: swf (names "
+            "are identifiers; keyed lists have >= 1 key, keys lead, belong to the list's module, distinct names; key-less lists "
+            "without LYS_CONFIG_W; terms have no children), dwf (every node conforms to a schema child of its parent's schema "
+            "node; inner nodes without value, terms hold the canonical value of their type; list instances start with their "
+            "keys; positional instances contiguous, all other nodes unique by schema node / key tuple / leaf-list value among "
+            "siblings; fewer than 2^31 siblings), quotes_ok (no key or configuration leaf-list value with both quote "
+            "characters). OUTSIDE the model (E_UNSUP, never generated): other types (identityref, instance-identifier, "
+            "decimal64, bits, union, empty: oracle paths-ops only), range / length / pattern, relative paths, XPath variables, "
+            "bytes above 127 outside literals (parse_ncname model is ASCII), anydata values other than empty, anyxml, opaque "
+            "nodes, LYD_DEFAULT other than on empty non-presence containers of parsed trees, path options other than 0 "
+            "(UPDATE, OPAQ), the sibling position lyd_insert_node() gives a node created in a non-empty tree (only created "
+            "chain and attach point are modelled), lyd_find_xpath() (oracle level: Y, paths, paths-ops, pathq / pathq_rt). "
+            "32-bit wrap of lyd_list_pos and the atoi() truncation of the index-0 test are modelled as coded.",
+    "technique": "Coq proofs about executable models (whole path round trip; quote/unquote) + differential correspondence of the "
+                 "extracted models with libyang + API oracles on every node",
 }
